@@ -662,7 +662,11 @@ class FmtStr:
             if index.start < counter + chunk.width and index.stop > counter:
                 start = max(0, index.start - counter)
                 end = min(index.stop - counter, chunk.width)
-                if end - start == chunk.width:
+                # (a chunk that opens the slice with a zero-width character takes
+                # the slow path: that character combines with a cell left of the slice)
+                if end - start == chunk.width and not (
+                    0 < counter == index.start and wcwidth(chunk.s[0]) == 0
+                ):
                     parts.append(chunk)
                 else:
                     s_part = width_aware_slice(
